@@ -5,7 +5,7 @@
 namespace {
 thread_local std::ostream* g_os = nullptr; thread_local std::vector<std::string>* g_rows = nullptr; thread_local long long g_y = 0, g_ct = 0, g_fr = 0;
 void ael_cb(int n, const long long* v) {
-  if (n >= 0) { if (n == 0) { g_rows->clear(); } g_y = v[0]; g_ct = v[12]; g_fr = v[13]; g_rows->push_back(jints(std::vector<long long>(v, v + 12))); return; }
+  if (n >= 0) { if (n == 0) { g_rows->clear(); } g_y = v[0]; g_ct = v[12]; g_fr = v[13]; { std::vector<long long> row(v, v + 12); row.push_back(v[14]); row.push_back(v[15]); g_rows->push_back(jints(row)); } return; }
   (*g_os) << Ev("Ael").kn("y", g_y).kn("ct", g_ct).kn("fr", g_fr).kv("a", jarr(g_rows->begin(), g_rows->end(), [](const std::string& s) { return s; })).str() << "\n";
 }
 // hook H2: every intersection the sweep processes, collected per Execute
